@@ -18,6 +18,8 @@ CONSTANTS Sockets,     \* TRUE: socket-pair signalling, FALSE: wait-condition si
           NExtra,      \* Messages the extra sender thread "S" sends (0 = no such thread)
           Rounds,      \* start/shutdown rounds (2 = one restart)
           MaxPolls,    \* bound on the owner's non-blocking polls
+          TimedLoops,  \* subset of BOOLEAN: may the internal thread's loop use waits with a deadline (as testthread.cpp does) / without one (the default loop)
+          MaxIntr,     \* bound on select() calls interrupted by a signal (EINTR): socket mode only
           Mutation,    \* "none"; "sig2" = signal when the queue length becomes 2 (a wrong design, used to show NoLostWakeup is not vacuous)
           RECORD
 
@@ -35,21 +37,23 @@ VARIABLES q,          \* [Dirs -> Seq(Nat)]  the two _messages queues (0 = the N
           nsent,      \* owner: Messages sent in this round
           xsent,      \* extra sender: Messages sent
           npolls,
+          tloop,      \* the internal thread's loop waits with a deadline
+          nintr,      \* interrupted select() calls so far
           sentH, recvH,   \* histories: enqueue order / dequeue order per direction (ghost)
           handled,    \* sequence of Messages the internal thread's handler saw (ghost)
           last
 
-vars == <<q, sig, alloc, eof, running, ended, lt, round, nsent, xsent, npolls, sentH, recvH, handled, last>>
+vars == <<q, sig, alloc, eof, running, ended, lt, round, nsent, xsent, npolls, tloop, nintr, sentH, recvH, handled, last>>
 
 L0 == [pc |-> "idle", d |-> "int", m |-> 0, wm |-> "none", inner |-> FALSE, then |-> "idle", res |-> -1]
 \* pc: idle | Enq | Sig | Drain | Deq | Block | WokeWC | Join | StartSig | Entry | Close | off
-\* wm: poll | block        inner: the recursive zero-timeout call made after select() returned
+\* wm: poll | block | timed (a deadline that may pass while the thread is blocked)        inner: the recursive zero-timeout call made after select() returned
 \* then: where the thread continues after the current Send / Wait: "idle" (owner, sender) | "loop" | "reply" (internal)
 
 Init == /\ q = [d \in Dirs |-> <<>>] /\ sig = [d \in Dirs |-> 0]
         /\ alloc = ~Sockets /\ eof = FALSE /\ running = FALSE /\ ended = FALSE
         /\ lt = [t \in Thr |-> IF t = "I" THEN [L0 EXCEPT !.pc = "off"] ELSE L0]
-        /\ round = 0 /\ nsent = 0 /\ xsent = 0 /\ npolls = 0
+        /\ round = 0 /\ nsent = 0 /\ xsent = 0 /\ npolls = 0 /\ tloop \in TimedLoops /\ nintr = 0
         /\ sentH = [d \in Dirs |-> <<>>] /\ recvH = [d \in Dirs |-> <<>>] /\ handled = <<>>
         /\ last = [a |-> "Init"]
 
@@ -60,7 +64,8 @@ CanSignal(d) == IF Sockets THEN alloc /\ (d = "own" => ~eof) ELSE TRUE
 
 \* where a thread goes when its Send is complete: the internal thread's handler returns and the loop waits for the next Message
 WaitStart(d, wm, then) == [L0 EXCEPT !.pc = IF (Sockets /\ alloc) THEN "Drain" ELSE "Deq", !.d = d, !.wm = wm, !.then = then]
-Cont(t) == IF lt[t].then = "loop" THEN WaitStart("int", "block", "loop") ELSE [lt[t] EXCEPT !.pc = lt[t].then]
+LoopWait == WaitStart("int", IF tloop THEN "timed" ELSE "block", "loop")
+Cont(t) == IF lt[t].then = "loop" THEN LoopWait ELSE [lt[t] EXCEPT !.pc = lt[t].then]
 
 \* ---- SendMessageAux ----------------------------------------------------------------------------------
 \* [lock; AddTail; sendNotification := (size = 1); unlock]
@@ -70,14 +75,14 @@ Enq(t) == /\ lt[t].pc = "Enq"
              /\ sentH' = [sentH EXCEPT ![d] = Append(@, lt[t].m)]
              /\ lt' = [lt EXCEPT ![t] = IF first THEN [lt[t] EXCEPT !.pc = "Sig"] ELSE Cont(t)]
              /\ Log(t, "Enq", [d |-> d, m |-> lt[t].m, len |-> Len(q[d]) + 1, first |-> first])
-          /\ UNCHANGED <<sig, alloc, eof, running, ended, round, nsent, xsent, npolls, recvH, handled>>
+          /\ UNCHANGED <<sig, alloc, eof, running, ended, round, nsent, xsent, npolls, tloop, nintr, recvH, handled>>
 \* SignalInternalThread / SignalOwner
 Sig(t) == /\ lt[t].pc = "Sig"
           /\ LET d == lt[t].d IN
              /\ sig' = IF CanSignal(d) THEN [sig EXCEPT ![d] = @ + 1] ELSE sig
              /\ Log(t, "Sig", [d |-> d, sent |-> CanSignal(d)])
           /\ lt' = [lt EXCEPT ![t] = Cont(t)]
-          /\ UNCHANGED <<q, alloc, eof, running, ended, round, nsent, xsent, npolls, sentH, recvH, handled>>
+          /\ UNCHANGED <<q, alloc, eof, running, ended, round, nsent, xsent, npolls, tloop, nintr, sentH, recvH, handled>>
 
 \* ---- WaitForNextMessageAux -----------------------------------------------------------------------------
 \* absorb the wake-up bytes (non-blocking recv)
@@ -85,11 +90,11 @@ Drain(t) == /\ lt[t].pc = "Drain"
             /\ sig' = [sig EXCEPT ![lt[t].d] = 0]
             /\ lt' = [lt EXCEPT ![t].pc = "Deq"]
             /\ Log(t, "Drain", [d |-> lt[t].d])
-            /\ UNCHANGED <<q, alloc, eof, running, ended, round, nsent, xsent, npolls, sentH, recvH, handled>>
+            /\ UNCHANGED <<q, alloc, eof, running, ended, round, nsent, xsent, npolls, tloop, nintr, sentH, recvH, handled>>
 \* [lock; RemoveHead; unlock]; then return the Message, or B_TIMED_OUT for a poll, or go and block
 Returned(t, m) ==      \* thread-local continuation after Wait returned m (-1 = B_TIMED_OUT)
     IF t = "I"
-    THEN IF m = -1 THEN WaitStart("int", "block", "loop")                                                                  \* "recoverable": wait again
+    THEN IF m = -1 THEN LoopWait                                                                  \* "recoverable": wait again
          ELSE IF m = 0 THEN [lt[t] EXCEPT !.pc = "Close"]                                                                   \* NULL Message: exit
          ELSE [lt[t] EXCEPT !.pc = "Enq", !.d = "own", !.m = m + 100, !.then = "loop", !.inner = FALSE]                     \* handler: send the reply
     ELSE [lt[t] EXCEPT !.pc = "idle", !.res = m, !.inner = FALSE]
@@ -104,34 +109,46 @@ Deq(t) == /\ lt[t].pc = "Deq"
              ELSE /\ UNCHANGED <<q, recvH, handled>>
                   /\ lt' = [lt EXCEPT ![t] = IF lt[t].wm = "poll" \/ lt[t].inner THEN Returned(t, -1) ELSE [lt[t] EXCEPT !.pc = "Block"]]
                   /\ Log(t, "Deq", [d |-> d, ok |-> FALSE, m |-> -1, left |-> 0])
-          /\ UNCHANGED <<sig, alloc, eof, running, ended, round, nsent, xsent, npolls, sentH>>
+          /\ UNCHANGED <<sig, alloc, eof, running, ended, round, nsent, xsent, npolls, tloop, nintr, sentH>>
 \* socket mode: select() says the socket is readable (a byte, or EOF on the owner's side): poll again with timeout 0
 WakeSock(t) == /\ lt[t].pc = "Block" /\ Sockets
                /\ LET d == lt[t].d IN sig[d] > 0 \/ (d = "own" /\ eof)
                /\ lt' = [lt EXCEPT ![t].pc = "Drain", ![t].inner = TRUE]
                /\ Log(t, "Wake", [d |-> lt[t].d])
-               /\ UNCHANGED <<q, sig, alloc, eof, running, ended, round, nsent, xsent, npolls, sentH, recvH, handled>>
+               /\ UNCHANGED <<q, sig, alloc, eof, running, ended, round, nsent, xsent, npolls, tloop, nintr, sentH, recvH, handled>>
 \* wait-condition mode: Wait() returns and flushes the count; the call is repeated with the original deadline
 WakeWC(t) == /\ lt[t].pc = "Block" /\ ~Sockets
              /\ sig[lt[t].d] > 0
              /\ sig' = [sig EXCEPT ![lt[t].d] = 0]
              /\ lt' = [lt EXCEPT ![t].pc = "Deq"]
              /\ Log(t, "Wake", [d |-> lt[t].d])
-             /\ UNCHANGED <<q, alloc, eof, running, ended, round, nsent, xsent, npolls, sentH, recvH, handled>>
+             /\ UNCHANGED <<q, alloc, eof, running, ended, round, nsent, xsent, npolls, tloop, nintr, sentH, recvH, handled>>
+\* the deadline of a timed wait passes while the thread is blocked: B_TIMED_OUT (both mechanisms)
+WakeTimeout(t) == /\ lt[t].pc = "Block" /\ lt[t].wm = "timed"
+                  /\ lt' = [lt EXCEPT ![t] = Returned(t, -1)]
+                  /\ Log(t, "WakeTimeout", [d |-> lt[t].d])
+                  /\ UNCHANGED <<q, sig, alloc, eof, running, ended, round, nsent, xsent, npolls, tloop, nintr, sentH, recvH, handled>>
+\* socket mode: a signal interrupts select() (EINTR): SocketMultiplexer::WaitForEvents() returns B_NO_ERROR with nothing flagged and
+\* WaitForNextMessageAux() reports B_TIMED_OUT whatever the deadline was (the default loop calls that "recoverable" and waits again)
+Interrupt(t) == /\ Sockets /\ lt[t].pc = "Block" /\ nintr < MaxIntr
+                /\ nintr' = nintr + 1
+                /\ lt' = [lt EXCEPT ![t] = Returned(t, -1)]
+                /\ Log(t, "WakeTimeout", [d |-> lt[t].d])
+                /\ UNCHANGED <<q, sig, alloc, eof, running, ended, round, nsent, xsent, npolls, tloop, sentH, recvH, handled>>
 \* ---- the internal thread's life ------------------------------------------------------------------------
 \* InternalThreadEntryAux: [lock owner queue; if it already holds replies: SignalOwner(); unlock]
 \* (the signal is a separate action here although the code sends it with the lock still held: a harmless over-approximation)
 Entry == /\ lt["I"].pc = "Entry"
-         /\ lt' = [lt EXCEPT !["I"] = IF q["own"] # <<>> THEN [L0 EXCEPT !.pc = "Sig", !.d = "own", !.then = "loop"] ELSE WaitStart("int", "block", "loop")]
+         /\ lt' = [lt EXCEPT !["I"] = IF q["own"] # <<>> THEN [L0 EXCEPT !.pc = "Sig", !.d = "own", !.then = "loop"] ELSE LoopWait]
          /\ Log("I", "Entry", [has |-> (q["own"] # <<>>)])
-         /\ UNCHANGED <<q, sig, alloc, eof, running, ended, round, nsent, xsent, npolls, sentH, recvH, handled>>
+         /\ UNCHANGED <<q, sig, alloc, eof, running, ended, round, nsent, xsent, npolls, tloop, nintr, sentH, recvH, handled>>
 \* ... _messageSocket.Reset() (the owner sees EOF), then the thread ends
 Close == /\ lt["I"].pc = "Close"
          /\ eof' = (Sockets /\ alloc)
          /\ ended' = TRUE
          /\ lt' = [lt EXCEPT !["I"].pc = "off"]
          /\ Log("I", "Close", [x |-> 0])
-         /\ UNCHANGED <<q, sig, alloc, running, round, nsent, xsent, npolls, sentH, recvH, handled>>
+         /\ UNCHANGED <<q, sig, alloc, running, round, nsent, xsent, npolls, tloop, nintr, sentH, recvH, handled>>
 
 \* ---- the owner's public calls ----------------------------------------------------------------------------
 Outstanding == Len(SelectSeq(sentH["int"], LAMBDA x : x # 0)) - Len(recvH["own"])   \* replies still to come (or waiting in the queue)
@@ -141,49 +158,55 @@ OSend == /\ lt["O"].pc = "idle" /\ nsent < NMsgs /\ ~ShutSent
          /\ lt' = [lt EXCEPT !["O"] = [L0 EXCEPT !.pc = "Enq", !.d = "int", !.m = (IF round = 0 THEN 1 ELSE round) * 10 + nsent + 1, !.then = "idle"]]
          /\ nsent' = nsent + 1
          /\ Log("O", "OSend", [m |-> (IF round = 0 THEN 1 ELSE round) * 10 + nsent + 1])
-         /\ UNCHANGED <<q, sig, alloc, eof, running, ended, round, xsent, npolls, sentH, recvH, handled>>
+         /\ UNCHANGED <<q, sig, alloc, eof, running, ended, round, xsent, npolls, tloop, nintr, sentH, recvH, handled>>
 OPoll == /\ lt["O"].pc = "idle" /\ npolls < MaxPolls
          /\ lt' = [lt EXCEPT !["O"] = WaitStart("own", "poll", "idle")]
          /\ npolls' = npolls + 1
          /\ Log("O", "OPoll", [x |-> 0])
-         /\ UNCHANGED <<q, sig, alloc, eof, running, ended, round, nsent, xsent, sentH, recvH, handled>>
+         /\ UNCHANGED <<q, sig, alloc, eof, running, ended, round, nsent, xsent, tloop, nintr, sentH, recvH, handled>>
 \* a blocking GetNextReplyFromInternalThread(): only generated when a reply is certain to come
 OWait == /\ lt["O"].pc = "idle" /\ running /\ ~ShutSent /\ Outstanding > 0
          /\ lt' = [lt EXCEPT !["O"] = WaitStart("own", "block", "idle")]
          /\ Log("O", "OWait", [x |-> 0])
-         /\ UNCHANGED <<q, sig, alloc, eof, running, ended, round, nsent, xsent, npolls, sentH, recvH, handled>>
+         /\ UNCHANGED <<q, sig, alloc, eof, running, ended, round, nsent, xsent, npolls, tloop, nintr, sentH, recvH, handled>>
+\* GetNextReplyFromInternalThread() with a deadline: may be called at any time, returns a reply or B_TIMED_OUT
+OWaitTimed == /\ lt["O"].pc = "idle" /\ npolls < MaxPolls
+              /\ lt' = [lt EXCEPT !["O"] = WaitStart("own", "timed", "idle")]
+              /\ npolls' = npolls + 1
+              /\ Log("O", "OWaitTimed", [x |-> 0])
+              /\ UNCHANGED <<q, sig, alloc, eof, running, ended, round, nsent, xsent, tloop, nintr, sentH, recvH, handled>>
 \* StartInternalThread(): needsInitialSignal := queue non-empty (read without the lock) ...
 OStart == /\ lt["O"].pc = "idle" /\ ~running /\ round < Rounds
           /\ lt' = [lt EXCEPT !["O"] = [L0 EXCEPT !.pc = "Start2", !.m = IF q["int"] # <<>> THEN 1 ELSE 0]]
           /\ Log("O", "OStart", [initial |-> (q["int"] # <<>>)])
-          /\ UNCHANGED <<q, sig, alloc, eof, running, ended, round, nsent, xsent, npolls, sentH, recvH, handled>>
+          /\ UNCHANGED <<q, sig, alloc, eof, running, ended, round, nsent, xsent, npolls, tloop, nintr, sentH, recvH, handled>>
 \* ... then (other threads may have run meanwhile) allocate the sockets, mark the thread running, spawn it ...
 OStart2 == /\ lt["O"].pc = "Start2"
            /\ running' = TRUE /\ alloc' = TRUE /\ ended' = FALSE /\ round' = round + 1
            /\ nsent' = IF round = 0 THEN nsent ELSE 0
            /\ lt' = [lt EXCEPT !["O"] = [L0 EXCEPT !.pc = IF lt["O"].m = 1 THEN "StartSig" ELSE "idle"], !["I"] = [L0 EXCEPT !.pc = "Entry"]]
            /\ Log("O", "OStart2", [x |-> 0])
-           /\ UNCHANGED <<q, sig, eof, xsent, npolls, sentH, recvH, handled>>
+           /\ UNCHANGED <<q, sig, eof, xsent, npolls, tloop, nintr, sentH, recvH, handled>>
 \* ... and signal it if Messages were already queued
 OStartSig == /\ lt["O"].pc = "StartSig"
              /\ sig' = IF CanSignal("int") THEN [sig EXCEPT !["int"] = @ + 1] ELSE sig
              /\ lt' = [lt EXCEPT !["O"].pc = "idle"]
              /\ Log("O", "Sig", [d |-> "int", sent |-> CanSignal("int")])
-             /\ UNCHANGED <<q, alloc, eof, running, ended, round, nsent, xsent, npolls, sentH, recvH, handled>>
+             /\ UNCHANGED <<q, alloc, eof, running, ended, round, nsent, xsent, npolls, tloop, nintr, sentH, recvH, handled>>
 \* ShutdownInternalThread(true): send the NULL Message, then join
 OShutdown == /\ lt["O"].pc = "idle" /\ running /\ ~ShutSent
              /\ lt' = [lt EXCEPT !["O"] = [L0 EXCEPT !.pc = "Enq", !.d = "int", !.m = 0, !.then = "Join"]]
              /\ Log("O", "OShutdown", [x |-> 0])
-             /\ UNCHANGED <<q, sig, alloc, eof, running, ended, round, nsent, xsent, npolls, sentH, recvH, handled>>
+             /\ UNCHANGED <<q, sig, alloc, eof, running, ended, round, nsent, xsent, npolls, tloop, nintr, sentH, recvH, handled>>
 \* ShutdownInternalThread(false): only send the NULL Message; WaitForInternalThreadToExit() is called separately later
 OShutdownNoWait == /\ lt["O"].pc = "idle" /\ running /\ ~ShutSent
                    /\ lt' = [lt EXCEPT !["O"] = [L0 EXCEPT !.pc = "Enq", !.d = "int", !.m = 0, !.then = "idle"]]
                    /\ Log("O", "OShutdownNoWait", [x |-> 0])
-                   /\ UNCHANGED <<q, sig, alloc, eof, running, ended, round, nsent, xsent, npolls, sentH, recvH, handled>>
+                   /\ UNCHANGED <<q, sig, alloc, eof, running, ended, round, nsent, xsent, npolls, tloop, nintr, sentH, recvH, handled>>
 OWaitExit == /\ lt["O"].pc = "idle" /\ running /\ ShutSent
              /\ lt' = [lt EXCEPT !["O"].pc = "Join"]
              /\ Log("O", "OWaitExit", [x |-> 0])
-             /\ UNCHANGED <<q, sig, alloc, eof, running, ended, round, nsent, xsent, npolls, sentH, recvH, handled>>
+             /\ UNCHANGED <<q, sig, alloc, eof, running, ended, round, nsent, xsent, npolls, tloop, nintr, sentH, recvH, handled>>
 \* join() returns once the internal thread has ended; then CloseSockets()
 OJoin == /\ lt["O"].pc = "Join" /\ ended
          /\ running' = FALSE
@@ -191,22 +214,22 @@ OJoin == /\ lt["O"].pc = "Join" /\ ended
          /\ sig' = IF Sockets THEN [d \in Dirs |-> 0] ELSE sig
          /\ lt' = [lt EXCEPT !["O"].pc = "idle"]
          /\ Log("O", "OJoin", [x |-> 0])
-         /\ UNCHANGED <<q, ended, round, nsent, xsent, npolls, sentH, recvH, handled>>
+         /\ UNCHANGED <<q, ended, round, nsent, xsent, npolls, tloop, nintr, sentH, recvH, handled>>
 
 \* ---- the extra sender ------------------------------------------------------------------------------------
 SSend == /\ NExtra > 0 /\ lt["S"].pc = "idle" /\ xsent < NExtra /\ ~ShutSent
          /\ lt' = [lt EXCEPT !["S"] = [L0 EXCEPT !.pc = "Enq", !.d = "int", !.m = 50 + xsent + 1, !.then = "idle"]]
          /\ xsent' = xsent + 1
          /\ Log("S", "SSend", [m |-> 50 + xsent + 1])
-         /\ UNCHANGED <<q, sig, alloc, eof, running, ended, round, nsent, npolls, sentH, recvH, handled>>
+         /\ UNCHANGED <<q, sig, alloc, eof, running, ended, round, nsent, npolls, tloop, nintr, sentH, recvH, handled>>
 
-TNext(t) == \/ Enq(t) \/ Sig(t) \/ Drain(t) \/ Deq(t) \/ WakeSock(t) \/ WakeWC(t)
+TNext(t) == \/ Enq(t) \/ Sig(t) \/ Drain(t) \/ Deq(t) \/ WakeSock(t) \/ WakeWC(t) \/ WakeTimeout(t) \/ Interrupt(t)
             \/ (t = "I" /\ (Entry \/ Close))
-            \/ (t = "O" /\ (OSend \/ OPoll \/ OWait \/ OStart \/ OStart2 \/ OStartSig \/ OShutdown \/ OShutdownNoWait \/ OWaitExit \/ OJoin))
+            \/ (t = "O" /\ (OSend \/ OPoll \/ OWait \/ OWaitTimed \/ OStart \/ OStart2 \/ OStartSig \/ OShutdown \/ OShutdownNoWait \/ OWaitExit \/ OJoin))
             \/ (t = "S" /\ SSend)
 Next == \E t \in Thr : TNext(t)
 Spec == Init /\ [][Next]_vars
-\* fairness: the library's own steps are taken; the owner's *choices* (send, poll, start, shutdown) are not forced
+\* fairness: the library's own steps are taken (a deadline passing or a signal arriving is never forced); the owner's *choices* (send, poll, start, shutdown) are not forced
 LibNext(t) == Enq(t) \/ Sig(t) \/ Drain(t) \/ Deq(t) \/ WakeSock(t) \/ WakeWC(t) \/ (t = "I" /\ (Entry \/ Close)) \/ (t = "O" /\ (OStart2 \/ OStartSig \/ OJoin))
 FairSpec == Spec /\ \A t \in Thr : WF_vars(LibNext(t))
 \* ... and for termination the owner is assumed to go on as long as it can
